@@ -599,7 +599,7 @@ def reach_formula(b, S, block, stack=(), depth=0):
                     rc = reach_formula(b, S, sb, stack + (block,), depth + 1)
                     terms.append(_and(rc, lab))
                     continue
-        if t.get("dty") == "bool" and d is not None and not d["p"] and depth < 12:
+        if t.get("dty") == "bool" and d is not None and not d["p"] and depth < 40:
             # a test delegated to a predicate function the reviewed tree does not know (a long condition extracted into a
             # helper): the helper's own return condition, with its parameters replaced by the operands of the call
             hf = helper_formula(b, S, resolve_copy(b, d["l"]))
@@ -720,6 +720,7 @@ def combinator_formula(b, S, l):
 
     def sub(txt):
         txt = re.sub(r"\barg1\.#(\d+)", lambda m: caps.get(int(m.group(1)), m.group(0)), txt)
+        txt = re.sub(r"::\{closure#\d+\}", "", txt)        # constants promoted inside the closure are named after it
         return re.sub(r"\barg2\b", rdesc, txt)
 
     def rec(f):
@@ -731,6 +732,11 @@ def combinator_formula(b, S, l):
             return ["e", sub(f[1]), [sub(v) for v in f[2]], f[3]]
         return ["b", sub(f[1]), f[2]]
     some = ["e", "discr(%s)" % rdesc, ["Some"], True]
+    # `v.last()` / `v.first()` is Some exactly when v is not empty
+    rp = mir.op_place(recv)
+    rdef = _single_call_def(b, rp["l"]) if rp is not None and not rp["p"] else None
+    if rdef is not None and re.search(r"slice::(<impl \[T\]>::)?(last|first)$", mir.strip_generics((rdef.get("res") or "").lstrip("?"))) and rdef.get("args"):
+        some = ["b", "is_empty(%s)" % op_desc(b, S, rdef["args"][0]), False]
     Pc = rec(P)
     return ["or", neg(some), Pc] if default else ["and", some, Pc]
 
@@ -815,8 +821,82 @@ def _eval(f, env):
     return env[("b", f[1])] == f[2]
 
 
+def _cofactor(f, key, val):
+    """f with the subject `key` fixed to `val`, simplified"""
+    if f is True or f is False:
+        return f
+    if f[0] in ("and", "or"):
+        out = []
+        for x in f[1:]:
+            c = _cofactor(x, key, val)
+            if c is True:
+                if f[0] == "or":
+                    return True
+                continue
+            if c is False:
+                if f[0] == "and":
+                    return False
+                continue
+            out.append(c)
+        if not out:
+            return f[0] == "and"
+        return out[0] if len(out) == 1 else [f[0]] + out
+    if f[0] == "e":
+        if key == ("e", f[1]):
+            return (val in f[2]) == f[3]
+        return f
+    if key == ("b", f[1]):
+        return val == f[2]
+    return f
+
+
+def _first_subject(f):
+    if f is True or f is False:
+        return None
+    if f[0] in ("and", "or"):
+        for x in f[1:]:
+            k = _first_subject(x)
+            if k is not None:
+                return k
+        return None
+    return (f[0], f[1])
+
+
+def _shannon_equiv(f1, f2, subs, budget):
+    """(equivalent?, satisfiable1, satisfiable2) by case split on one subject at a time (formulas of if/else-if chains collapse
+    quickly under a split); None when the budget of splits is used up"""
+    import json
+    memo = {}
+
+    def rec(a, b_):
+        if (a is True or a is False) and (b_ is True or b_ is False):
+            return (a == b_, a, b_)
+        key = json.dumps([a, b_], sort_keys=True)
+        if key in memo:
+            return memo[key]
+        budget[0] -= 1
+        if budget[0] < 0:
+            raise OverflowError
+        k = _first_subject(a) or _first_subject(b_)
+        dom = sorted(subs[k]) + ["\0other"] if k[0] == "e" else [True, False]
+        eq, s1, s2 = True, False, False
+        for v in dom:
+            r = rec(_cofactor(a, k, v), _cofactor(b_, k, v))
+            eq = eq and r[0]
+            s1 = s1 or r[1]
+            s2 = s2 or r[2]
+            if not eq:
+                break
+        memo[key] = (eq, s1, s2)
+        return memo[key]
+    try:
+        return rec(f1, f2)
+    except (OverflowError, RecursionError):
+        return None
+
+
 def equivalent(f1, f2, limit=300000):
-    """logical equivalence of two reaching conditions; None when the truth table would be too large"""
+    """logical equivalence of two reaching conditions; None when it cannot be decided within the limits"""
     import itertools
     subs = {}
     _subjects(f1, subs)
@@ -829,7 +909,13 @@ def equivalent(f1, f2, limit=300000):
         doms.append(dom)
         n *= len(dom)
         if n > limit:
-            return None
+            # too many subjects for a truth table: case splits with simplification
+            r = _shannon_equiv(f1, f2, subs, [60000])
+            if r is None:
+                return None
+            if not r[0]:
+                return False
+            return True if (r[1] and r[2]) else None
     # an Option reached through another Option (`a.b` where `a` is an Option): `a.b` is Some only if `a` is Some.  Assignments that
     # contradict this cannot occur (the flattened `a.as_ref().and_then(|x| x.b.as_ref())` tests only the inner one)
     impl = []
